@@ -10,7 +10,7 @@ from __future__ import annotations
 from typing import Any, Iterator
 
 from . import gen, view
-from .model import MTree, MNode, Refused, all_reasons
+from .model import INVALID, UNIQUE, MTree, MNode, Refused, all_reasons
 
 # the "other" tree used for cross-tree copies / add(tree)
 OTHER = gen.Spec(((-1, "p", None, None), (0, "q", None, None), (-1, "a", None, None), (-1, "r", None, None)))
@@ -118,6 +118,8 @@ def _apply_real(w: World, op: tuple):
         if t == "addtree":
             _, p, b, deep = op
             return "ok", w.rt(p).add(w.otree, before=w.before_real(b), deep=deep)
+        if t == "addself":  # the tree added into one of its own nodes
+            return "ok", w.rt(op[1]).add(w.tree)
         if t == "copy_to":
             _, src, p, add_self, b, deep = op
             return "ok", w.nodes[src].copy_to(w.rt(p), add_self=add_self, before=w.before_real(b), deep=deep)
@@ -216,6 +218,13 @@ def apply_model(w: World, op: tuple):
         if t == "addtree":
             _, p, b, deep = op
             return "ok", M.add_tree(w.mn(p), w.omtree, before=w.before_model(b), deep=deep)
+        if t == "addself":
+            # a (deep) copy of every top-level branch below a node of that very tree: the target lies inside one of the
+            # branches to be copied (or is the root, whose children the copies would duplicate) -> refused, nothing changes
+            tops = list(M.root.children)
+            if not tops:
+                return "ok", None
+            raise Refused(UNIQUE if op[1] == -1 else INVALID + UNIQUE + ("TreeError", "RuntimeError"), "copy of a branch into itself (add(tree) below a node of the same tree)")
         if t == "copy_to":
             _, src, p, add_self, b, deep = op
             s = w.mnodes[src]
@@ -454,6 +463,8 @@ def enum_ops(spec: gen.Spec, groups=("add", "shortcut", "addnode", "addtree", "m
                     for deep in (False, True):
                         yield ("copy_to", src, p, add_self, None, deep)
     if "addtree" in groups:
+        for p in P:
+            yield ("addself", p)
         for p in P:
             for b in befores(w, p, extra_foreign=False):
                 yield ("addtree", p, b, None)
